@@ -50,6 +50,69 @@ impl C10 {
         C10 { tier, ucg: Ucg::new() }
     }
 
+    /// An interactive session: a binding, then attempts to bind the same name again (a plain
+    /// let, a let whose value fails, a constraint), with the name read back in between.
+    fn gen_repl_session(t: &mut Tape) -> Vec<String> {
+        let name = *t.pick(&["a", "limit", "cfg"]);
+        let v1 = *t.pick(&["1", "\"one\"", "{x = 1, y = [1, 2]}", "[1, 2, 3]", "true", "1.5"]);
+        let mut s = vec![];
+        if t.chance(1, 3) {
+            s.push("let other = 0;".to_string());
+        }
+        s.push(format!("let {} = {};", name, v1));
+        s.push(format!("{};", name));
+        for _ in 0..1 + t.choice(3) {
+            s.push(match t.choice(5) {
+                0 => format!("let {} = 2;", name),
+                1 => format!("let {} = 1 / 0;", name),
+                2 => format!("let {} = nosuchname;", name),
+                3 => format!("constraint {} = in 1..5;", name),
+                _ => format!("let {} = {};", name, v1),
+            });
+            s.push(format!("{};", name));
+        }
+        s
+    }
+
+    /// In `ucg repl` a refused rebinding leaves the binding as it was: the name reads back the
+    /// same before and after every attempt.
+    fn repl_check(&mut self, session: &[String]) -> Outcome {
+        let script = session.join("\n") + "\n";
+        let mut o = Outcome::pass(format!("[ucg repl]\n{}", script));
+        o.key = fnv(script.as_bytes());
+        o.portable = Some(serde_json::json!({"kind": "repl", "session": session}).to_string());
+        o.class("repl-session");
+        o.nontrivial = true;
+        let dir = crate::ucgrun::new_scratch_dir("c10repl");
+        let r = crate::cli::run_repl(&script, vec![], true, &dir, &dir);
+        let _ = std::fs::remove_dir_all(&dir);
+        if r.timed_out {
+            o.verdict = Verdict::Discard("watchdog: ucg repl did not finish within 60 s".into());
+            return o;
+        }
+        let lines = crate::cli::repl_lines(&r);
+        // one answer per statement, in order
+        if lines.len() != session.len() {
+            o.class("repl-output-not-line-per-statement");
+            return o;
+        }
+        let first_bind = session.iter().position(|st| st.starts_with("let ") && !st.starts_with("let other")).unwrap_or(0);
+        let reads: Vec<&String> = session.iter().zip(&lines).filter(|(st, _)| !st.starts_with("let ") && !st.starts_with("constraint ")).map(|(_, l)| l).collect();
+        for (st, l) in session.iter().zip(&lines).skip(first_bind + 1) {
+            let binds = st.starts_with("let ") || st.starts_with("constraint ");
+            if binds && !(l.contains("already exists") || l.contains(" at line")) {
+                o.fail("C10/repl-rebinding-accepted", format!("`{}` was not refused in the repl session (answer: {})\nsession:\n{}\noutput:\n{}", st, l, script, lines.join("\n")));
+                return o;
+            }
+        }
+        if let Some(first) = reads.first() {
+            if let Some(bad) = reads.iter().find(|l| l != &first) {
+                o.fail("C10/repl-binding-changes", format!("the name read back as `{}` first and as `{}` after a refused rebinding\nsession:\n{}\noutput:\n{}", first, bad, script, lines.join("\n")));
+            }
+        }
+        o
+    }
+
     fn eval(&mut self, src: &str) -> Result<Rc<Val>, String> {
         self.ucg.reset();
         let ucg = &self.ucg;
@@ -301,6 +364,10 @@ impl Property for C10 {
     }
     fn run_tape(&mut self, words: &[u32]) -> Outcome {
         let mut t = Tape::new(words);
+        if t.chance(1, 40) {
+            let session = Self::gen_repl_session(&mut t);
+            return self.repl_check(&session);
+        }
         if t.chance(1, 4) {
             let (prog, label) = self.gen_template(&mut t);
             return self.template_check(&prog, label);
@@ -327,6 +394,10 @@ impl Property for C10 {
             Some("prefix") => {
                 let prog: Vec<Stmt> = serde_json::from_value(j.get("program").cloned().expect("program")).expect("program encoding");
                 self.prefix_check(&prog, &[])
+            }
+            Some("repl") => {
+                let session: Vec<String> = serde_json::from_value(j.get("session").cloned().expect("session")).expect("session encoding");
+                self.repl_check(&session)
             }
             Some("template") => {
                 let prog: Vec<Stmt> = serde_json::from_value(j.get("program").cloned().expect("program")).expect("program encoding");
